@@ -185,8 +185,9 @@ class Executor:
 
     # ==================================================================
     def run(self, spec: HandlerSpec, kind: Optional[str], config: Dict[str, str], max_iter=1,
-            extra_env=None) -> List[Path]:
+            extra_env=None, inline=True) -> List[Path]:
         self.spec = spec
+        self.inline = inline
         st = St.__new__(St)
         env = {}
         sc = spec.module.scopes[spec.fn]
@@ -1085,7 +1086,7 @@ class Executor:
         if h == "func":
             fn, fmod = ft[1], ft[2]
             active = [f.fn for f in st.frames]
-            if len(st.frames) <= MAX_INLINE_DEPTH and fn not in active and not _is_generator(fn):
+            if self.inline and len(st.frames) <= MAX_INLINE_DEPTH and fn not in active and not _is_generator(fn):
                 yield from self._inline(node, fn, fmod, args, kwargs, st)
                 return
         if h == "builtin":
